@@ -51,6 +51,40 @@ Proof. apply eqb_prop. revert c. apply forall_byte. vm_compute. reflexivity. Qed
 Lemma int_underscore_is c : inmask INT_UNDERSCORE c = beq c USC.
 Proof. apply eqb_prop. revert c. apply forall_byte. vm_compute. reflexivity. Qed.
 
+(* bytes.isdigit() admits exactly the ASCII digits *)
+Lemma bytes_isdigit_is c : inmask BYTES_ISDIGIT c = is_digit c.
+Proof. apply eqb_prop. revert c. apply forall_byte. vm_compute. reflexivity. Qed.
+
+(* RFC 7230 tchar *)
+Definition tchar (c : byte) : bool :=
+  let n := bN c in
+  ((48 <=? n) && (n <=? 57)) || ((65 <=? n) && (n <=? 90)) || ((97 <=? n) && (n <=? 122)) ||
+  existsb (beq c) (X "2123242526272a2b2d2e5e5f607c7e").
+Definition token (u : bytes) : bool := negb (isnil u) && forallb tchar u.
+
+(* the octets Range.RE_UNIT admits are token characters (trivially so on a tree without RE_UNIT, whose table is empty) ... *)
+Lemma unit_chars_tchar c : inmask RANGE_UNIT_CHARS c = true -> tchar c = true.
+Proof.
+  intros H. assert (G : implb (inmask RANGE_UNIT_CHARS c) (tchar c) = true).
+  { clear H. revert c. apply forall_byte. vm_compute. reflexivity. }
+  rewrite H in G. exact G.
+Qed.
+(* ... and on a tree that validates the unit they are exactly the token characters, in a pattern of the pinned shape ^[class]+\Z *)
+Lemma unit_chars_are_tchars : RANGE_UNIT_VARIANT = Repaired -> forall c, inmask RANGE_UNIT_CHARS c = tchar c.
+Proof.
+  intros H c. apply eqb_prop. revert c. apply forall_byte. revert H. vm_compute.
+  intros H. first [discriminate H | reflexivity].
+Qed.
+Lemma range_unit_pattern_pinned :
+  RANGE_UNIT_VARIANT = Repaired -> RANGE_UNIT_PAT = X "5e5b2123242526272a2b2e5e5f607c7e302d39412d5a612d7a2d5d2b5c5a".
+Proof. vm_compute. intros H. first [discriminate H | reflexivity]. Qed.
+
+(* the unit 'bytes' passes the unit test of the working tree, and is served under both variants *)
+Lemma unit_ok_bytes_current : unit_ok RANGE_UNIT_VARIANT BYTES_UNIT = true.
+Proof. vm_compute. reflexivity. Qed.
+Lemma unit_served_bytes vu : unit_served vu BYTES_UNIT = true.
+Proof. destruct vu; vm_compute; reflexivity. Qed.
+
 (* ---------- int() on decimal numerals ---------- *)
 
 Lemma int_digits_all_digits l : forall acc p,
@@ -95,6 +129,14 @@ Proof.
   intros c H. cbv beta. rewrite beq_sym. destruct (digit_plain c H) as [-> _]. reflexivity.
 Qed.
 
+Definition all_digits (l : bytes) : bool := negb (isnil l) && forallb is_digit l.
+
+Lemma isdigit_all_is b : isdigit_all b = all_digits b.
+Proof.
+  unfold isdigit_all, all_digits. f_equal.
+  induction b as [|c b IH]; [reflexivity|]. cbn [forallb]. rewrite bytes_isdigit_is, IH. reflexivity.
+Qed.
+
 Lemma strip_dec n : strip (dec n) = dec n.
 Proof.
   apply strip_id_forall. apply (forallb_impl is_digit); [|apply dec_digits].
@@ -104,18 +146,31 @@ Qed.
 Lemma dec_isnil n : isnil (dec n) = false.
 Proof. pose proof (dec_nonempty n). destruct (dec n); [contradiction | reflexivity]. Qed.
 
+(* a byte position under either variant *)
+Lemma pos_parse_dec vi n : pos_parse vi (dec n) = Some n.
+Proof.
+  destruct vi; cbn [pos_parse]; [apply pynat_dec|].
+  rewrite isdigit_all_is. unfold all_digits. rewrite dec_isnil, dec_digits. cbn [negb andb]. apply pynat_dec.
+Qed.
+
+Lemma pos_parse_sub vi b n : pos_parse vi b = Some n -> pynat b = Some n.
+Proof. destruct vi; cbn [pos_parse]; [trivial|]. destruct (isdigit_all b); [trivial | discriminate]. Qed.
+
+Lemma pos_parse_repaired b n : pos_parse Repaired b = Some n -> all_digits b = true.
+Proof. cbn [pos_parse]. rewrite isdigit_all_is. destruct (all_digits b); [reflexivity | discriminate]. Qed.
+
 (* ---------- one rendered byte-range-spec ---------- *)
 
 Definition render_spec (first last : N) : bytes := dec first ++ [DASH] ++ dec last.
 
-Lemma parse_one_render first last :
-  first < last -> parse_one (render_spec first last) = Some (Some first, Some last).
+Lemma parse_one_render vi first last :
+  first < last -> parse_one vi (render_spec first last) = Some (Some first, Some last).
 Proof.
   intros H. unfold parse_one, render_spec. cbn [app].
   rewrite partition3_app.
   2:{ apply (forallb_impl is_digit); [|apply dec_digits]. intros c Hc.
       destruct (digit_plain c Hc) as (_ & -> & _). reflexivity. }
-  rewrite !strip_dec, !dec_isnil, !pynat_dec. cbn [andb orb negb option_map].
+  rewrite !strip_dec, !dec_isnil, !pos_parse_dec. cbn [andb orb negb option_map].
   replace (last <=? first) with false by (symmetry; apply N.leb_gt; exact H).
   unfold zero_or_none. replace (last =? 0) with false by (symmetry; apply N.eqb_neq; lia).
   rewrite andb_false_r. reflexivity.
@@ -146,7 +201,6 @@ Qed.
 
 (* ---------- the whole field "bytes=first-last" ---------- *)
 
-Definition BYTES_UNIT : bytes := X "6279746573".
 Definition render_range (specs : bytes) : bytes := BYTES_UNIT ++ [EQC] ++ specs.
 
 Lemma partition_unit specs : partition3 EQC (render_range specs) = (BYTES_UNIT, true, specs).
@@ -166,17 +220,22 @@ Proof.
   destruct (is_none (fst r)), (is_none (snd r)); reflexivity.
 Qed.
 
-Theorem range_parse_single first last :
-  first < last ->
-  range_parse (render_range (render_spec first last)) = Some (BYTES_UNIT, [(Some first, Some last)]).
+Theorem range_parse_single_v vi vu first last :
+  unit_ok vu BYTES_UNIT = true -> first < last ->
+  range_parse_v vi vu dos_ok (render_range (render_spec first last)) = Some (BYTES_UNIT, [(Some first, Some last)]).
 Proof.
-  intros H. unfold range_parse, range_parse_with, range_specs.
-  rewrite partition_unit.
+  intros Hu H. unfold range_parse_v, range_specs_v.
+  rewrite partition_unit, Hu.
   rewrite (qsplit_plain COMMA _ (render_spec_plain first last)).
-  cbn [map]. rewrite render_spec_strip, (parse_one_render first last H).
+  cbn [map]. rewrite render_spec_strip, (parse_one_render vi first last H).
   cbn [all_some dedupe existsb sort_r fold_right insert_r].
   rewrite dos_ok_single. reflexivity.
 Qed.
+
+Theorem range_parse_single first last :
+  first < last ->
+  range_parse (render_range (render_spec first last)) = Some (BYTES_UNIT, [(Some first, Some last)]).
+Proof. apply range_parse_single_v, unit_ok_bytes_current. Qed.
 
 (* ---------- slices ---------- *)
 
@@ -244,16 +303,29 @@ Proof.
     cbn in H; try discriminate; repeat split; reflexivity.
 Qed.
 
-Theorem single_range_general accept c v u first last d ct bd :
+Theorem single_range_general vi vu accept c v u first last d ct bd :
   range_conditions c true d = true ->
-  range_parse_with accept v = Some (u, [(Some first, Some last)]) ->
+  range_parse_v vi vu accept v = Some (u, [(Some first, Some last)]) -> unit_served vu u = true ->
   first < last -> last < len d ->
-  prepare_ranges_with accept c (Some v) d ct bd =
+  prepare_ranges_v vi vu accept c (Some v) d ct bd =
     Partial (Some (X "627974657320" ++ dec first ++ [DASH] ++ dec last ++ [SLASH] ++ dec (len d))) None
             (last + 1 - first) (firstn (nat_of (last + 1 - first)) (skipn (nat_of first) d)).
 Proof.
-  intros Hc Hp H1 H2. unfold prepare_ranges_with. rewrite Hc, Hp. unfold prepare_range.
+  intros Hc Hp Hu H1 H2. unfold prepare_ranges_v. rewrite Hc, Hp, Hu. unfold prepare_range.
   rewrite (content_range_closed first last (len d) H1), (slice_closed_len d first last H1 H2). reflexivity.
+Qed.
+
+Theorem single_range_v vi vu c d ct bd first last :
+  unit_ok vu BYTES_UNIT = true ->
+  pre_ok c = true -> first < last -> last < len d ->
+  prepare_ranges_v vi vu dos_ok c (Some (render_range (render_spec first last))) d ct bd =
+    Partial (Some (X "627974657320" ++ dec first ++ [DASH] ++ dec last ++ [SLASH] ++ dec (len d))) None
+            (last + 1 - first) (firstn (nat_of (last + 1 - first)) (skipn (nat_of first) d)).
+Proof.
+  intros Hu Hc H1 H2. apply (single_range_general vi vu dos_ok c _ BYTES_UNIT); [| | | exact H1 | exact H2].
+  - apply range_conditions_ok; [exact Hc|]. destruct d; [cbn in H2; lia | reflexivity].
+  - apply range_parse_single_v; [exact Hu | exact H1].
+  - apply unit_served_bytes.
 Qed.
 
 Theorem single_range c d ct bd first last :
@@ -262,41 +334,51 @@ Theorem single_range c d ct bd first last :
     Partial (Some (X "627974657320" ++ dec first ++ [DASH] ++ dec last ++ [SLASH] ++ dec (len d))) None
             (last + 1 - first) (firstn (nat_of (last + 1 - first)) (skipn (nat_of first) d)).
 Proof.
-  intros Hc H1 H2. apply (single_range_general dos_ok c _ BYTES_UNIT); try assumption.
-  - apply range_conditions_ok; [exact Hc|]. destruct d; [cbn in H2; lia | reflexivity].
-  - apply range_parse_single, H1.
+  apply single_range_v, unit_ok_bytes_current.
 Qed.
 
-Theorem multi_range accept c v u rs d ct bd :
+Theorem multi_range vi vu accept c v u rs d ct bd :
   range_conditions c true d = true ->
-  range_parse_with accept v = Some (u, rs) -> (2 <= List.length rs)%nat ->
-  prepare_ranges_with accept c (Some v) d ct bd =
+  range_parse_v vi vu accept v = Some (u, rs) -> unit_served vu u = true -> (2 <= List.length rs)%nat ->
+  prepare_ranges_v vi vu accept c (Some v) d ct bd =
     let body := mp_encode bd (map (fun r => (part_headers ct (content_range r (len d)), slice d r)) rs) in
     Partial None (Some (multipart_ctype bd)) (len body) body.
 Proof.
-  intros Hc Hp Hl. unfold prepare_ranges_with. rewrite Hc, Hp. unfold prepare_range.
+  intros Hc Hp Hu Hl. unfold prepare_ranges_v. rewrite Hc, Hp, Hu. unfold prepare_range.
   destruct rs as [|r1 [|r2 rs]]; cbn in Hl; try lia. reflexivity.
 Qed.
 
 (* a refused field never gives 206, whatever the DoS filter and the preconditions *)
-Theorem refused_never_206 accept c v d ct bd before :
-  range_parse_with accept v = None -> before <> 206 ->
-  status_of (prepare_ranges_with accept c (Some v) d ct bd) before <> 206.
+Theorem refused_never_206 vi vu accept c v d ct bd before :
+  range_parse_v vi vu accept v = None -> before <> 206 ->
+  status_of (prepare_ranges_v vi vu accept c (Some v) d ct bd) before <> 206.
 Proof.
-  intros Hp Hb. unfold prepare_ranges_with. rewrite Hp.
+  intros Hp Hb. unfold prepare_ranges_v. rewrite Hp.
   destruct (range_conditions c true d); cbn [status_of]; [lia | exact Hb].
 Qed.
 
 (* and 206 is only ever produced when every precondition holds *)
-Theorem partial_only_under_preconditions accept c range d ct bd before :
-  before <> 206 -> status_of (prepare_ranges_with accept c range d ct bd) before = 206 ->
-  pre_ok c = true /\ isnil d = false /\ exists v u rs, range = Some v /\ range_parse_with accept v = Some (u, rs).
+Theorem partial_only_under_preconditions vi vu accept c range d ct bd before :
+  before <> 206 -> status_of (prepare_ranges_v vi vu accept c range d ct bd) before = 206 ->
+  pre_ok c = true /\ isnil d = false /\
+  exists v u rs, range = Some v /\ range_parse_v vi vu accept v = Some (u, rs) /\ unit_served vu u = true.
 Proof.
-  intros Hb H. unfold prepare_ranges_with in H. destruct range as [v|]; [|cbn in H; contradiction].
+  intros Hb H. unfold prepare_ranges_v in H. destruct range as [v|]; [|cbn in H; contradiction].
   destruct (range_conditions c true d) eqn:Hc; [|cbn in H; contradiction].
   destruct (range_conditions_pre _ _ _ Hc) as (P & _ & Nn).
-  destruct (range_parse_with accept v) as [[u rs]|] eqn:Hp; [|cbn in H; lia].
-  repeat split; try assumption. exists v, u, rs. split; [reflexivity | exact Hp].
+  destruct (range_parse_v vi vu accept v) as [[u rs]|] eqn:Hp; [|cbn in H; lia].
+  destruct (unit_served vu u) eqn:Hu; [|cbn in H; contradiction].
+  repeat split; try assumption. exists v, u, rs. repeat split; [exact Hp | exact Hu].
+Qed.
+
+(* a unit other than 'bytes' (any case) leaves the response alone once the unit is looked at (RFC 7233 3.1) *)
+Theorem foreign_unit_unchanged vi accept c v u rs d ct bd :
+  range_parse_v vi Repaired accept v = Some (u, rs) -> lower u <> BYTES_UNIT ->
+  prepare_ranges_v vi Repaired accept c (Some v) d ct bd = Unchanged.
+Proof.
+  intros Hp Hu. unfold prepare_ranges_v. rewrite Hp. destruct (range_conditions c true d); [|reflexivity].
+  cbn [unit_served]. destruct (bytes_eqb (lower u) BYTES_UNIT) eqn:E; [|reflexivity].
+  apply bytes_eqb_eq in E. contradiction.
 Qed.
 
 (* ---------- what an accepted list of ranges looks like ---------- *)
@@ -381,12 +463,12 @@ Proof.
     injection H as <-. constructor; [exact E | apply IH; reflexivity].
 Qed.
 
-Theorem range_parse_with_spec accept v u rs :
-  range_parse_with accept v = Some (u, rs) ->
-  exists specs, range_specs v = (u, Some specs) /\ accept rs = true /\
+Theorem range_parse_with_spec vi vu accept v u rs :
+  range_parse_v vi vu accept v = Some (u, rs) ->
+  exists specs, range_specs_v vi vu v = (u, Some specs) /\ accept rs = true /\
     (forall r, In r rs <-> In r specs) /\ NoDup rs /\ StronglySorted key_le rs.
 Proof.
-  unfold range_parse_with. destruct (range_specs v) as [u' [specs|]] eqn:E; [|discriminate].
+  unfold range_parse_v. destruct (range_specs_v vi vu v) as [u' [specs|]] eqn:E; [|discriminate].
   destruct (accept (sort_r (dedupe [] specs))) eqn:A; [|discriminate].
   intros H. injection H as <- <-. exists specs. split; [reflexivity|]. split; [exact A|].
   destruct (dedupe_spec specs []) as [N I].
@@ -406,12 +488,12 @@ Definition spec_wf (r : rspec) : Prop :=
   | (None, None) => False
   end.
 
-Lemma parse_one_wf p r : parse_one p = Some r -> spec_wf r.
+Lemma parse_one_wf vi p r : parse_one vi p = Some r -> spec_wf r.
 Proof.
   unfold parse_one. destruct (partition3 DASH p) as [[a f] b].
   destruct ((isnil (strip a) && isnil (strip b)) || negb f); [discriminate|].
-  set (s := if isnil (strip a) then Some None else option_map Some (pynat (strip a))).
-  set (e := if isnil (strip b) then Some None else option_map Some (pynat (strip b))).
+  set (s := if isnil (strip a) then Some None else option_map Some (pos_parse vi (strip a))).
+  set (e := if isnil (strip b) then Some None else option_map Some (pos_parse vi (strip b))).
   destruct s as [s|]; [|discriminate]. destruct e as [e|]; [|discriminate].
   destruct s as [x|], e as [y|]; unfold zero_or_none; cbn [andb].
   - destruct (y <=? x) eqn:E; [discriminate|]. apply N.leb_gt in E.
@@ -423,9 +505,10 @@ Proof.
   - discriminate.
 Qed.
 
-Lemma range_specs_wf v u specs : range_specs v = (u, Some specs) -> Forall spec_wf specs.
+Lemma range_specs_wf vi vu v u specs : range_specs_v vi vu v = (u, Some specs) -> Forall spec_wf specs.
 Proof.
-  unfold range_specs. destruct (partition3 EQC v) as [[u' f] rest]. intros H. injection H as _ H.
+  unfold range_specs_v. destruct (partition3 EQC v) as [[u' f] rest]. intros H. injection H as _ H.
+  destruct (unit_ok vu u'); [|discriminate].
   apply all_some_spec in H. induction H; constructor; [eapply parse_one_wf; eassumption | assumption].
 Qed.
 
@@ -477,21 +560,12 @@ Qed.
 
 (* ---------- the strict grammar: what Range.parse refuses ---------- *)
 
-Definition all_digits (l : bytes) : bool := negb (isnil l) && forallb is_digit l.
-
 (* byte-range-spec = first-byte-pos "-" [last-byte-pos] | "-" suffix-length, white space tolerated around positions *)
 Definition strict_spec (p : bytes) : bool :=
   let '(a, f, b) := partition3 DASH p in
   let s := strip a in
   let e := strip b in
   f && ((all_digits s && (isnil e || all_digits e)) || (isnil s && all_digits e)).
-
-(* RFC 7230 tchar *)
-Definition tchar (c : byte) : bool :=
-  let n := bN c in
-  ((48 <=? n) && (n <=? 57)) || ((65 <=? n) && (n <=? 90)) || ((97 <=? n) && (n <=? 122)) ||
-  existsb (beq c) (X "2123242526272a2b2d2e5e5f607c7e").
-Definition token (u : bytes) : bool := negb (isnil u) && forallb tchar u.
 
 (* ranges-specifier = range-unit "=" 1#byte-range-spec (no empty list elements) *)
 Definition strict_ok (v : bytes) : bool :=
@@ -560,9 +634,9 @@ Proof.
   apply in_rev in H0. destruct (lstrip_suffix l) as [w' [E' _]]. rewrite E'. apply in_or_app; right; exact H0.
 Qed.
 
-Lemma parse_one_strict p r : plain p -> parse_one p = Some r -> strict_spec p = true.
+Lemma parse_one_strict p r : plain p -> parse_one AsFound p = Some r -> strict_spec p = true.
 Proof.
-  intros Hp H. unfold parse_one in H. unfold strict_spec.
+  intros Hp H. unfold parse_one in H. cbn [pos_parse] in H. unfold strict_spec.
   destruct (partition3 DASH p) as [[a f] b] eqn:P.
   destruct (partition3_spec _ _ _ _ _ P) as [Ha Hl].
   destruct f; [|rewrite orb_true_r in H; discriminate]. cbn [negb] in H. rewrite orb_false_r in H.
@@ -617,12 +691,13 @@ Proof.
   destruct (IH Hx) as [y [H1 H2]]. exists y. split; [right; exact H1 | exact H2].
 Qed.
 
-Theorem strict_refused v :
-  no_lax v = true -> strict_ok v = false -> snd (range_specs v) = None.
+(* the as-found tree *)
+Theorem strict_refused_asfound v :
+  no_lax v = true -> strict_ok v = false -> snd (range_specs_v AsFound AsFound v) = None.
 Proof.
-  unfold no_lax, strict_ok, range_specs. destruct (partition3 EQC v) as [[u f] rest] eqn:P.
-  intros Hn Hs. apply andb_true_iff in Hn as [Tu Pl]. rewrite Tu, andb_true_r in Hs. cbn [snd].
-  destruct (all_some (map (fun p => parse_one (strip p)) (qsplit COMMA rest))) as [l|] eqn:A; [|reflexivity].
+  unfold no_lax, strict_ok, range_specs_v. destruct (partition3 EQC v) as [[u f] rest] eqn:P.
+  intros Hn Hs. apply andb_true_iff in Hn as [Tu Pl]. rewrite Tu, andb_true_r in Hs. cbn [snd unit_ok].
+  destruct (all_some (map (fun p => parse_one AsFound (strip p)) (qsplit COMMA rest))) as [l|] eqn:A; [|reflexivity].
   exfalso. apply all_some_spec in A.
   assert (forallb (fun p => strict_spec (strip p)) (qsplit COMMA rest) = true) as F.
   { apply forallb_forall. intros p Hp.
@@ -637,51 +712,162 @@ Proof.
   cbn in A. inversion A as [|? ? ? ? Hx]; subst. vm_compute in Hx. discriminate.
 Qed.
 
-Theorem strict_never_206 accept c v d ct bd before :
-  no_lax v = true -> strict_ok v = false -> before <> 206 ->
-  status_of (prepare_ranges_with accept c (Some v) d ct bd) before <> 206.
+(* whatever a repaired variant accepts, the as-found code accepts with the same result *)
+Lemma parse_one_sub vi p r : parse_one vi p = Some r -> parse_one AsFound p = Some r.
 Proof.
-  intros Hn Hs. apply refused_never_206. unfold range_parse_with.
-  pose proof (strict_refused v Hn Hs) as R. destruct (range_specs v) as [u [l|]]; [discriminate | reflexivity].
+  destruct vi; [trivial|]. unfold parse_one. destruct (partition3 DASH p) as [[a f] b].
+  destruct ((isnil (strip a) && isnil (strip b)) || negb f); [trivial|].
+  cbn [pos_parse]. intros H.
+  destruct (isnil (strip a)), (isnil (strip b));
+    repeat match type of H with context [if isdigit_all ?x then _ else _] => destruct (isdigit_all x) end;
+    cbn [option_map] in H; try discriminate H; try exact H;
+    destruct (pynat (strip a)); cbn [option_map] in H; discriminate H.
 Qed.
 
-(* the full statement (without [no_lax]) is false of the faithful model: the two known findings *)
+Lemma all_some_sub {A B} (f g : A -> option B) l out :
+  (forall x y, f x = Some y -> g x = Some y) -> all_some (map f l) = Some out -> all_some (map g l) = Some out.
+Proof.
+  intros Hfg. revert out; induction l as [|x l IH]; cbn [map all_some]; intros out H; [exact H|].
+  destruct (f x) as [y|] eqn:E; [|discriminate]. rewrite (Hfg _ _ E).
+  destruct (all_some (map f l)) as [r|]; [|discriminate]. rewrite (IH r eq_refl). exact H.
+Qed.
+
+Lemma range_specs_sub vi vu v u l :
+  range_specs_v vi vu v = (u, Some l) -> range_specs_v AsFound AsFound v = (u, Some l).
+Proof.
+  unfold range_specs_v. destruct (partition3 EQC v) as [[u' f] rest]. cbn [unit_ok].
+  destruct (unit_ok vu u'); [|discriminate]. intros H. injection H as -> H. f_equal.
+  eapply all_some_sub; [|exact H]. intros x y. apply parse_one_sub.
+Qed.
+
+(* the statement away from the two finding classes holds of every variant ... *)
+Theorem strict_refused vi vu v :
+  no_lax v = true -> strict_ok v = false -> snd (range_specs_v vi vu v) = None.
+Proof.
+  intros Hn Hs. destruct (range_specs_v vi vu v) as [u [l|]] eqn:E; [|reflexivity].
+  apply range_specs_sub in E. pose proof (strict_refused_asfound v Hn Hs) as R. rewrite E in R. discriminate.
+Qed.
+
+Theorem strict_never_206 vi vu accept c v d ct bd before :
+  no_lax v = true -> strict_ok v = false -> before <> 206 ->
+  status_of (prepare_ranges_v vi vu accept c (Some v) d ct bd) before <> 206.
+Proof.
+  intros Hn Hs. apply refused_never_206. unfold range_parse_v.
+  pose proof (strict_refused vi vu v Hn Hs) as R. destruct (range_specs_v vi vu v) as [u [l|]]; [discriminate | reflexivity].
+Qed.
+
+(* ... and of the repaired code it holds without that restriction: whatever Range.parse lets through is inside the grammar *)
+Lemma parse_one_strict_repaired p r : parse_one Repaired p = Some r -> strict_spec p = true.
+Proof.
+  unfold parse_one, strict_spec. destruct (partition3 DASH p) as [[a f] b].
+  destruct f; [|rewrite orb_true_r; discriminate]. cbn [negb andb]. rewrite orb_false_r.
+  destruct (isnil (strip a)) eqn:Ea; destruct (isnil (strip b)) eqn:Eb; cbn [andb orb]; try discriminate.
+  - destruct (pos_parse Repaired (strip b)) as [y|] eqn:Y; [|discriminate]. intros _.
+    rewrite (pos_parse_repaired _ _ Y). apply orb_true_r.
+  - destruct (pos_parse Repaired (strip a)) as [x|] eqn:Xx; [|discriminate]. intros _.
+    rewrite (pos_parse_repaired _ _ Xx). reflexivity.
+  - destruct (pos_parse Repaired (strip a)) as [x|] eqn:Xx; [|discriminate].
+    destruct (pos_parse Repaired (strip b)) as [y|] eqn:Y; [|discriminate]. intros _.
+    rewrite (pos_parse_repaired _ _ Xx), (pos_parse_repaired _ _ Y). reflexivity.
+Qed.
+
+Lemma unit_ok_token u : unit_ok Repaired u = true -> token u = true.
+Proof.
+  unfold unit_ok, token. intros H. apply andb_true_iff in H as [H1 H2]. rewrite H1. cbn [andb].
+  apply (forallb_impl (inmask RANGE_UNIT_CHARS)); [apply unit_chars_tchar | exact H2].
+Qed.
+
+Theorem strict_refused_repaired v :
+  strict_ok v = false -> snd (range_specs_v Repaired Repaired v) = None.
+Proof.
+  unfold strict_ok, range_specs_v. destruct (partition3 EQC v) as [[u f] rest] eqn:P.
+  intros Hs. cbn [snd]. destruct (unit_ok Repaired u) eqn:U; [|reflexivity].
+  rewrite (unit_ok_token u U), andb_true_r in Hs.
+  destruct (all_some (map (fun p => parse_one Repaired (strip p)) (qsplit COMMA rest))) as [l|] eqn:A; [|reflexivity].
+  exfalso. apply all_some_spec in A.
+  assert (forallb (fun p => strict_spec (strip p)) (qsplit COMMA rest) = true) as F.
+  { apply forallb_forall. intros p Hp.
+    destruct (Forall2_in_left _ _ _ _ A Hp) as [r [_ Hr]]. cbv beta in Hr.
+    eapply parse_one_strict_repaired; exact Hr. }
+  rewrite F, andb_true_r in Hs. subst f.
+  destruct (partition3_spec _ _ _ _ _ P) as [_ [_ ->]].
+  cbn in A. inversion A as [|? ? ? ? Hx]; subst. vm_compute in Hx. discriminate.
+Qed.
+
+Theorem strict_never_206_repaired accept c v d ct bd before :
+  strict_ok v = false -> before <> 206 ->
+  status_of (prepare_ranges_v Repaired Repaired accept c (Some v) d ct bd) before <> 206.
+Proof.
+  intros Hs. apply refused_never_206. unfold range_parse_v.
+  pose proof (strict_refused_repaired v Hs) as R. destruct (range_specs_v Repaired Repaired v) as [u [l|]]; [discriminate | reflexivity].
+Qed.
+
+(* the same about the working tree, once both probes report the repaired code *)
+Theorem strict_never_206_current accept c v d ct bd before :
+  RANGE_INT_VARIANT = Repaired -> RANGE_UNIT_VARIANT = Repaired ->
+  strict_ok v = false -> before <> 206 ->
+  status_of (prepare_ranges_with accept c (Some v) d ct bd) before <> 206.
+Proof. unfold prepare_ranges_with. intros -> ->. apply strict_never_206_repaired. Qed.
+
+(* the full statement (without [no_lax]) is false of the faithful model of the as-found code: the two findings *)
 Lemma strict_never_206_refuted_sign :
-  exists c v d ct bd, strict_ok v = false /\ pre_ok c = true /\ status_of (prepare_ranges c (Some v) d ct bd) 200 = 206.
+  exists c v d ct bd, strict_ok v = false /\ pre_ok c = true /\ status_of (prepare_ranges_v AsFound AsFound dos_ok c (Some v) d ct bd) 200 = 206.
 Proof.
   exists (mkpre true true true true true false false false true), (X "62797465733d2b312d2b32"), (X "666f6f62617262617a"), [], [].
   vm_compute. repeat split; reflexivity.
 Qed.
 
 Lemma strict_never_206_refuted_unit :
-  exists c v d ct bd, strict_ok v = false /\ pre_ok c = true /\ status_of (prepare_ranges c (Some v) d ct bd) 200 = 206.
+  exists c v d ct bd, strict_ok v = false /\ pre_ok c = true /\ status_of (prepare_ranges_v AsFound AsFound dos_ok c (Some v) d ct bd) 200 = 206.
 Proof.
   exists (mkpre true true true true true false false false true), (X "3d312d32"), (X "666f6f62617262617a"), [], [].
   vm_compute. repeat split; reflexivity.
+Qed.
+
+(* the same two inputs on the repaired model: refused (416), respectively not served *)
+Lemma repaired_refuses_witnesses :
+  let c := mkpre true true true true true false false false true in
+  status_of (prepare_ranges_v Repaired AsFound dos_ok c (Some (X "62797465733d2b312d2b32")) (X "666f6f62617262617a") [] []) 200 = 416 /\
+  (RANGE_UNIT_VARIANT = Repaired ->
+   status_of (prepare_ranges c (Some (X "3d312d32")) (X "666f6f62617262617a") [] []) 200 = 416 /\
+   prepare_ranges c (Some (X "626974733d312d32")) (X "666f6f62617262617a") [] [] = Unchanged /\
+   status_of (prepare_ranges c (Some (X "42797465733d312d32")) (X "666f6f62617262617a") [] []) 200 = 206).
+Proof.
+  vm_compute. split; [reflexivity|]. intros H. first [discriminate H | repeat split; reflexivity].
 Qed.
 
 (* ---------- a rendered list of closed ranges:  bytes=f1-l1, f2-l2, ...  ---------- *)
 
 Definition render_specs (l : list (N * N)) : bytes := join_with CSP (map (fun p => render_spec (fst p) (snd p)) l).
 
-Theorem range_specs_render_list (l : list (N * N)) :
-  l <> [] -> Forall (fun p => fst p < snd p) l ->
-  range_specs (render_range (render_specs l)) = (BYTES_UNIT, Some (map (fun p => (Some (fst p), Some (snd p))) l)).
+Theorem range_specs_render_list vi vu (l : list (N * N)) :
+  unit_ok vu BYTES_UNIT = true -> l <> [] -> Forall (fun p => fst p < snd p) l ->
+  range_specs_v vi vu (render_range (render_specs l)) = (BYTES_UNIT, Some (map (fun p => (Some (fst p), Some (snd p))) l)).
 Proof.
-  intros Hne Hw. unfold range_specs. rewrite partition_unit. f_equal.
+  intros Hu Hne Hw. unfold range_specs_v. rewrite partition_unit, Hu. f_equal.
   destruct l as [|p l]; [contradiction|]. unfold render_specs. cbn [map].
   rewrite qsplit_join.
   2:{ constructor; [apply render_spec_plain|]. apply Forall_forall. intros x Hx. apply in_map_iff in Hx as [q [<- _]]. apply render_spec_plain. }
   cbn [map]. inversion Hw as [|? ? Hp Hw']; subst.
-  rewrite render_spec_strip, (parse_one_render _ _ Hp). cbn [all_some].
-  assert (all_some (map (fun p0 => parse_one (strip p0)) (map (cons SP) (map (fun p0 => render_spec (fst p0) (snd p0)) l)))
+  rewrite render_spec_strip, (parse_one_render vi _ _ Hp). cbn [all_some].
+  assert (all_some (map (fun p0 => parse_one vi (strip p0)) (map (cons SP) (map (fun p0 => render_spec (fst p0) (snd p0)) l)))
           = Some (map (fun p0 => (Some (fst p0), Some (snd p0))) l)) as ->; [|reflexivity].
   clear Hne Hw Hp. induction Hw' as [|q l Hq F IH]; [reflexivity|].
   cbn [map all_some].
   assert (strip (SP :: render_spec (fst q) (snd q)) = render_spec (fst q) (snd q)) as ->.
   { unfold strip. change (SP :: render_spec (fst q) (snd q)) with ([SP] ++ render_spec (fst q) (snd q)).
     rewrite lstrip_ws_app by (vm_compute; reflexivity). apply render_spec_strip. }
-  rewrite (parse_one_render _ _ Hq), IH. reflexivity.
+  rewrite (parse_one_render vi _ _ Hq), IH. reflexivity.
+Qed.
+
+Theorem range_parse_render_list_v vi vu accept (l : list (N * N)) :
+  unit_ok vu BYTES_UNIT = true -> l <> [] -> Forall (fun p => fst p < snd p) l ->
+  let rs := sort_r (dedupe [] (map (fun p => (Some (fst p), Some (snd p))) l)) in
+  accept rs = true ->
+  range_parse_v vi vu accept (render_range (render_specs l)) = Some (BYTES_UNIT, rs).
+Proof.
+  intros Hu Hne Hw rs Ha. unfold range_parse_v. rewrite (range_specs_render_list vi vu l Hu Hne Hw).
+  fold rs. rewrite Ha. reflexivity.
 Qed.
 
 Theorem range_parse_render_list accept (l : list (N * N)) :
@@ -689,7 +875,4 @@ Theorem range_parse_render_list accept (l : list (N * N)) :
   let rs := sort_r (dedupe [] (map (fun p => (Some (fst p), Some (snd p))) l)) in
   accept rs = true ->
   range_parse_with accept (render_range (render_specs l)) = Some (BYTES_UNIT, rs).
-Proof.
-  intros Hne Hw rs Ha. unfold range_parse_with. rewrite (range_specs_render_list l Hne Hw).
-  fold rs. rewrite Ha. reflexivity.
-Qed.
+Proof. apply range_parse_render_list_v, unit_ok_bytes_current. Qed.
